@@ -488,6 +488,11 @@ func (e *Env) ident(name string) Val {
 		if v, ok := e.fr.params[name]; ok {
 			return v
 		}
+		if i := e.w.lockedParam(e.fr.fn, name); i >= 0 {
+			if v, ok := e.fr.params[e.fr.fn.Params[i].Name()]; ok {
+				return v
+			}
+		}
 	}
 	// package-level constant
 	if e.pkg != nil {
